@@ -5,15 +5,20 @@ package ice
 // goroutines included) and over GatherCandidates racing with Restart.
 
 import (
+	"context"
+	"net"
 	"runtime"
 	"sync"
 	"sync/atomic"
+
+	"github.com/pion/transport/v4"
 )
 
 func init() {
 	verifRegister("verifC11Notifier", verifC11Notifier)
 	verifRegister("verifC11GatherVsRestart", verifC11GatherVsRestart)
 	verifRegister("verifC11RestartDuringCycle", verifC11RestartDuringCycle)
+	verifRegister("verifC11RestartDuringCycleWithCandidate", verifC11RestartDuringCycleWithCandidate)
 }
 
 const verifC11MaxDelay = 8 // thorough: 12
@@ -201,6 +206,70 @@ func verifC11RestartDuringCycle() {
 	a.candidateNotifier.Close(true)
 	st, _ = a.GetGatheringState()
 	verifAssert(st == GatheringStateComplete && nils.Load() == n0+1, "fresh-cycle-completes-with-exactly-one-nil-candidate")
+	a.loop.Close()
+	verifReach("done")
+}
+
+// The same with one interface, so the cycle opens a socket and publishes a
+// host candidate through addCandidate: a cycle superseded by Restart must not
+// add its candidate to the new generation — after Restart has returned and the
+// old cycle wound down no candidate is on record, none was announced with the
+// new generation's ufrag, and the socket the old cycle opened is closed.
+func verifC11RestartDuringCycleWithCandidate() {
+	w := verifNewWorld(true, false, 0, 0)
+	a := w.a
+	a.loop = verifLoop()
+	n := &verifNet{}
+	ifc := transport.NewInterface(net.Interface{Index: 1, Name: "eth0", Flags: net.FlagUp})
+	ifc.AddAddress(&net.IPNet{IP: net.ParseIP("10.0.0.1").To4(), Mask: net.CIDRMask(24, 32)})
+	n.ifaces = append(n.ifaces, ifc)
+	a.net = n
+	a.candidateTypes = []CandidateType{CandidateTypeHost}
+	a.gatheringState = GatheringStateNew
+	var mu sync.Mutex
+	var ufrags []string
+	verifAssert(a.OnCandidate(func(Candidate) {}) == nil, "handler")
+	a.candidateNotifier.candidateFunc = func(c Candidate) {
+		if c == nil {
+			return
+		}
+		u, _ := c.GetExtension("ufrag")
+		mu.Lock()
+		ufrags = append(ufrags, u.Value)
+		mu.Unlock()
+	}
+	verifAssert(a.GatherCandidates() == nil, "first-gather-accepted")
+	done := a.gatherCandidateDone
+	for k := verifChoice(verifC11MaxDelay + 4*verifTier() + 1); k > 0; k-- {
+		runtime.Gosched()
+	}
+	verifAssert(a.Restart("freshufrag", "freshpasswordfreshpasswd") == nil, "restart-ok")
+	if done != nil {
+		<-done
+	}
+	a.candidateNotifier.notifiers.Wait()
+	var nLocal int
+	verifAssert(a.loop.Run(a.loop, func(context.Context) {
+		for _, cs := range a.localCandidates {
+			nLocal += len(cs)
+		}
+	}) == nil, "loop-open")
+	verifAssertKnown(nLocal == 0, "a-cycle-superseded-by-Restart-adds-no-candidate-to-the-new-generation", "C11-cancelled-cycle-adds-candidate", true)
+	mu.Lock()
+	for _, u := range ufrags {
+		verifAssertKnown(u == verifLocalUfrag, "every-announced-candidate-carries-its-own-cycle's-ufrag", "C11-cancelled-cycle-adds-candidate", true)
+	}
+	if len(ufrags) > 0 {
+		verifReach("announced-before-restart")
+	} else {
+		verifReach("cancelled-before-announcing")
+	}
+	mu.Unlock()
+	if nLocal == 0 {
+		for _, c := range n.conns {
+			verifAssert(c.closed >= 1, "the-superseded-cycle's-socket-is-closed")
+		}
+	}
 	a.loop.Close()
 	verifReach("done")
 }
